@@ -126,6 +126,7 @@ Section MonoParse.
     induction d as [|d IH]; intros sc mi ic r H.
     - exfalso. apply H. reflexivity.
     - cbn [parse] in *. destruct (nth_error sc mi) as [m|]; [|reflexivity].
+      destruct (r_pos r) as [p0|e|w]; try reflexivity.
       apply (mono_ploop R r_pos r_len r_readbyte r_readn r_readbuf r_readwire r_skip r_range r_delegate
                (g_parse d sc) (g_parse (S d) sc)).
       + intros m' ic' r' Hn. apply IH. exact Hn.
